@@ -33,7 +33,7 @@ pub struct ConnProp {
 }
 
 #[derive(Clone, Debug)]
-enum K {
+pub(crate) enum K {
     AppEstablished { peer: usize, listener: bool, addr: String },
     AppClosed { peer: usize },
     AppDialFailure { addr: String },
@@ -48,50 +48,54 @@ enum K {
     POpenCall { proto: usize, peer: usize, id: Option<String>, err: String },
     PForceClose { proto: usize, peer: usize, ok: bool },
     PExit { proto: usize },
+    /// a substream held by the probe was released
+    PReleased { proto: usize, peer: usize },
     Killed,
 }
 
 #[derive(Clone, Debug)]
-struct Rec {
-    t: u64,
-    node: usize,
-    k: K,
+pub(crate) struct Rec {
+    pub t: u64,
+    pub node: usize,
+    pub k: K,
 }
 
-type Log = Arc<Mutex<Vec<Rec>>>;
+pub(crate) type Log = Arc<Mutex<Vec<Rec>>>;
 
-fn push(log: &Log, h: &Handle, node: usize, k: K) {
+pub(crate) fn push(log: &Log, h: &Handle, node: usize, k: K) {
     let t = vnow().as_nanos() as u64;
     h.event(format!("n{node} {k:?}"));
     log.lock().unwrap().push(Rec { t, node, k });
 }
 
 #[derive(Debug)]
-enum NodeCmd {
+pub(crate) enum NodeCmd {
     Dial { peer: usize, fin: bool },
     DialAddr { addr: Multiaddr, peer: Option<usize> },
     AddAddr { peer: usize, addr: Multiaddr },
 }
 
 #[derive(Debug)]
-enum ProbeCmd {
+pub(crate) enum ProbeCmd {
     Open { peer: usize, hold_ms: u64 },
     ForceClose { peer: usize },
     Exit { unregister: bool },
 }
 
-struct Probe {
-    node: usize,
-    idx: usize,
-    name: ProtocolName,
-    seed: u64,
-    nodes_total: usize,
-    log: Log,
-    handle: Handle,
-    rx: UnboundedReceiver<ProbeCmd>,
+pub(crate) struct Probe {
+    pub node: usize,
+    pub idx: usize,
+    pub name: ProtocolName,
+    pub seed: u64,
+    pub nodes_total: usize,
+    pub log: Log,
+    pub handle: Handle,
+    pub rx: UnboundedReceiver<ProbeCmd>,
+    /// how long inbound substreams are held before being dropped
+    pub inbound_hold_ms: u64,
 }
 
-fn peer_index(seed: u64, total: usize, p: &PeerId) -> usize {
+pub(crate) fn peer_index(seed: u64, total: usize, p: &PeerId) -> usize {
     for i in 1..=total {
         if &peer_id(seed, i) == p {
             return i;
@@ -111,7 +115,7 @@ impl UserProtocol for Probe {
     async fn run(mut self: Box<Self>, mut service: TransportService) -> litep2p::Result<()> {
         let (node, idx) = (self.node, self.idx);
         // substreams held open: (drop at, substream)
-        let mut held: Vec<(tokio::time::Instant, Substream)> = Vec::new();
+        let mut held: Vec<(tokio::time::Instant, usize, Substream)> = Vec::new();
         let mut hold_for: BTreeMap<String, u64> = BTreeMap::new();
         let mut cmds_open = true;
         loop {
@@ -144,7 +148,16 @@ impl UserProtocol for Probe {
                 },
                 _ = async { tokio::time::sleep_until(next_drop.unwrap()).await }, if next_drop.is_some() => {
                     let now = tokio::time::Instant::now();
-                    held.retain(|h| h.0 > now);
+                    let mut k = 0;
+                    while k < held.len() {
+                        if held[k].0 <= now {
+                            let (_, peer, sub) = held.remove(k);
+                            drop(sub);
+                            push(&self.log, &self.handle, node, K::PReleased { proto: idx, peer });
+                        } else {
+                            k += 1;
+                        }
+                    }
                 }
                 ev = service.next() => match ev {
                     None => {
@@ -162,9 +175,9 @@ impl UserProtocol for Probe {
                     Some(TransportEvent::SubstreamOpened { peer, direction, substream, .. }) => {
                         let p = peer_index(self.seed, self.nodes_total, &peer);
                         let out_id = match direction { Direction::Inbound => None, Direction::Outbound(id) => Some(format!("{id:?}")) };
-                        let hold = out_id.as_ref().and_then(|i| hold_for.remove(i)).unwrap_or(50);
+                        let hold = out_id.as_ref().and_then(|i| hold_for.remove(i)).unwrap_or(self.inbound_hold_ms);
                         push(&self.log, &self.handle, node, K::PSubOpened { proto: idx, peer: p, out_id });
-                        held.push((tokio::time::Instant::now() + Duration::from_millis(hold), substream));
+                        held.push((tokio::time::Instant::now() + Duration::from_millis(hold), p, substream));
                     }
                     Some(TransportEvent::SubstreamOpenFailure { substream, .. }) => {
                         push(&self.log, &self.handle, node, K::PSubFailure { proto: idx, id: format!("{substream:?}") });
@@ -178,7 +191,7 @@ impl UserProtocol for Probe {
     }
 }
 
-fn spawn_app_loop(handle: &Handle, log: Log, seed: u64, total: usize, i: usize, mut l: Litep2p) -> UnboundedSender<NodeCmd> {
+pub(crate) fn spawn_app_loop(handle: &Handle, log: Log, seed: u64, total: usize, i: usize, mut l: Litep2p) -> UnboundedSender<NodeCmd> {
     let (tx, mut rx): (UnboundedSender<NodeCmd>, UnboundedReceiver<NodeCmd>) = unbounded_channel();
     let h = handle.clone();
     handle.spawn(i, "litep2p-event-loop", async move {
@@ -405,7 +418,7 @@ impl Prop for ConnProp {
                         continue;
                     }
                     let (tx, rx) = unbounded_channel();
-                    b = b.with_user_protocol(Box::new(Probe { node: i, idx, name: ProtocolName::from(*name), seed, nodes_total: total, log: log.clone(), handle: handle.clone(), rx }));
+                    b = b.with_user_protocol(Box::new(Probe { node: i, idx, name: ProtocolName::from(*name), seed, nodes_total: total, log: log.clone(), handle: handle.clone(), rx, inbound_hold_ms: 50 }));
                     txs.push(Some(tx));
                 }
                 let mut l = match Litep2p::new(b.build()) {
